@@ -168,6 +168,11 @@ def check(ctx):
     ok = t.count("isinstance(conv.converter, ValueErrorCatcher)") == 2 and "conv.converter.func if isinstance(conv.converter, ValueErrorCatcher) else conv.converter" in t
     ctx.check(ok, "C12.R5", vc.qualname, vc.node.body[0], "value_error flag and unwrapped converter must both derive from isinstance(conv.converter, ValueErrorCatcher)", vc, vc.node, detail="flag and unwrapping from the same test")
 
+    # ---------------- R7
+    ctx.rule("C12.R7", "a converted type is never registered for by-type union dispatch: its node accepts whatever its source(s) accept (shared with C13.R1)", floor=1)
+    from .c13 import factory_key_rule
+    factory_key_rule(ctx, "C12.R7")
+
 
 def mutants(mb):
     CVp = "apischema/conversions/visitor.py"
@@ -175,6 +180,7 @@ def mutants(mb):
     S = "apischema/serialization/__init__.py"
     M = "apischema/deserialization/methods.py"
     CO = "apischema/conversions/converters.py"
+    mb.add_text("conversion-factory-keyed", D, "        return self._factory(factory, validation=not dynamic)\n", "        return dataclasses.replace(self._factory(factory, validation=not dynamic), cls=conv_factories[0].cls)\n", "C12.R7", "replace(cls=)")
     mb.add_text("guard-conversion-none", CVp, "        if not dynamic and is_subclass(tp, Collection) and not is_subclass(tp, str):", "        if (\n            conversion is None\n            and is_subclass(tp, Collection)\n            and not is_subclass(tp, str)\n        ):", "C12.R3", "guard")
     mb.add_text("guard-no-str", CVp, "        if not dynamic and is_subclass(tp, Collection) and not is_subclass(tp, str):", "        if not dynamic and is_subclass(tp, Collection):", "C12.R3", "guard")
     mb.add_text("guard-always", CVp, "        if not dynamic and is_subclass(tp, Collection) and not is_subclass(tp, str):", "        if not dynamic:", "C12.R3", "guard")
